@@ -50,6 +50,7 @@ class Contract:
         self.params = []            # [(name, Kind | ObjSpec)]
         self.free = []              # free variables of a nested function (closure): [(name, Kind)]
         self.globals = []           # module globals read by the function: [(name, Kind)]
+        self.setup = None           # setup(ctx, state): extra initial ghost state (e.g. a symbolic trace)
         self.opaque = {}            # callee key -> handler(ex, st, args_env, node) -> [(state, value|Exc)]
                                     # (assumed contract of a callee outside the unit; listed in evidence)
         self.locals = {}            # local name -> Kind
